@@ -87,15 +87,17 @@ func (fi *FuncInfo) guardsUpTo(n ast.Node, top ast.Node) []Cond {
 // last result (`ok` true / `err` nil), the conditions under which the helper
 // reaches its one successful return.
 func (fi *FuncInfo) withHelperSuccess(cs []Cond) []Cond {
-	if fi.C == nil || len(fi.C.successRet) == 0 {
+	if fi.C == nil || len(fi.C.successRet)+len(fi.C.failureRet) == 0 {
 		return cs
 	}
 	out := cs
 	for _, g := range cs {
 		var v *types.Var
+		failed := false
 		if g.Kind == "bool" {
-			if x, isNil, ok := fi.nilTest(g); ok && isNil && isErrorType(fi.Info.TypeOf(x)) {
+			if x, isNil, ok := fi.nilTest(g); ok && isErrorType(fi.Info.TypeOf(x)) {
 				v = fi.varOf(x)
+				failed = !isNil
 			} else if !g.Neg {
 				v = fi.varOf(g.Expr)
 			}
@@ -119,8 +121,11 @@ func (fi *FuncInfo) withHelperSuccess(cs []Cond) []Cond {
 			continue
 		}
 		S := fi.C.successRet[call]
+		if failed {
+			S = fi.C.failureRet[call]
+		}
 		h := fi.C.linked[call]
-		if S == nil || h == nil || best.idx != len(S.Results)-1 {
+		if S == nil || h == nil || !(best.idx == len(S.Results)-1 || (best.idx < 0 && len(S.Results) == 1)) {
 			continue
 		}
 		out = append(out, h.GuardsWithin(S, h.Decl)...)
